@@ -256,6 +256,13 @@ def run(tier, seed):
         neg.append(len(cases))
         cases.append({"n": c["n"], "emit": 0, "a": c["a"], "bs": [bad]})
         meta.append(None)
+    # the oracle first: Ops.tla must satisfy its own laws against the independent definitions of Gates.tla (exhaustive, small)
+    rs = lib.run_tlc("OpsSelf", lib.cfg(constants={"M": M}, invariants=["LawsHold"]), lib.workdir("C03", "self"), timeout=3000)
+    if rs.invariant_violated:
+        raise lib.MachineryError("Ops.tla violates one of its own laws (oracle error): " + rs.out[-1500:])
+    lib.require_ok(rs, "OpsSelf")
+    if rs.distinct < 1000:
+        raise lib.MachineryError(f"OpsSelf explored too few law instances ({rs.distinct})")
     verdicts, emitted, tstats = ot.evaluate("C03", cases, M)
     n_exact = n_bridge = n_matrix = 0
     nontriv, samples = set(), []
@@ -326,7 +333,8 @@ def run(tier, seed):
             raise lib.MachineryError(f"vacuity: some term kind never generated: {stats['kinds']}")
     if stats["simplify"]["exact"] < 50 or stats["map_wires"]["exact"] < 50 or n_matrix < 100:
         raise lib.MachineryError(f"vacuity: too few validated outputs {stats}")
-    cov = {"states": tstats["distinct"], "transitions": tstats["generated"], "traces_validated_against_impl": n_exact + n_bridge,
+    cov = {"states": tstats["distinct"] + rs.distinct, "transitions": tstats["generated"] + rs.generated,
+           "oracle_law_instances_model_checked": rs.distinct // 2, "traces_validated_against_impl": n_exact + n_bridge,
            "evaluations": n_matrix + n_exact + n_bridge, "distinct_nontrivial": len(nontriv),
            "rule": "terms: systematic depth-1/2 wrappers over a 17-gate alphabet, exp over the lattice, fractional powers under the "
                    "eigenphase guard, seeded random nesting; non-trivial = distinct terms of nesting depth >= 2 for which qp.matrix, the built "
